@@ -2,7 +2,7 @@
 from world import amounts
 
 ID = "C15"
-LEAN_MODULES = ["QtyModel.Props.C15", "QtyModel.Props.C15Dec"]
+LEAN_MODULES = ["QtyModel.Props.C15", "QtyModel.Props.C15Dec", "QtyModel.Props.TieFmt"]
 HARNESS_GROUPS = ('g_rate',)
 RATE_TYPES = ["Length", "Duration", "Mass", "DataVolume", "Temperature", "AmountT", "S:Su", "S:Sn", "S:Sa"]
 FILLS = ["n", "s", "z", "u", "e", "w"]
